@@ -265,10 +265,13 @@ def run_check(modname: str, tier: str, max_runs: int, chunk: int = 8,
                     harness_errors.append(
                         f"replay file {path} did not reproduce in a fresh process "
                         f"(exit {rp.returncode}): {rp.stdout[-300:]}")
-                else:
-                    replays_confirmed[0] += 1
+                    n_viol -= 1  # not reported as a violation: only what replays is
+                    continue
+                replays_confirmed[0] += 1
             except Exception as ex:  # noqa: BLE001
                 harness_errors.append(f"replaying {path} in a fresh process failed: {ex!r}")
+                n_viol -= 1
+                continue
             viol_lines.append(f"VIOLATION property={prop} replay={path}")
             print(f"[{prop}] violation detail: {json.dumps(failure['sig'])} "
                   f"seed={item['seed']}", flush=True)
@@ -352,6 +355,10 @@ def run_check(modname: str, tier: str, max_runs: int, chunk: int = 8,
     if harness_errors:
         for h in harness_errors[:5]:
             print(f"[{prop}] HARNESS-ERROR {h}", file=sys.stderr)
+        if replays_confirmed[0] and viol_lines:
+            # some incident of this run could not be reproduced (reported above), but at least one
+            # violation was: its replay file fails again in a fresh process.  That is a violation.
+            return 1
         return 2
     if runs == 0:
         print(f"[{prop}] HARNESS-ERROR no run completed", file=sys.stderr)
